@@ -17,7 +17,7 @@ from typing import Dict, List
 import numpy as np
 import sympy as sp
 
-from ..consteval import Folder, Opaque, Raised, Undecidable
+from ..consteval import Folder, FuncVal, Opaque, Raised, Undecidable
 from ..index import AnalysisError, FunctionInfo, Index, full, norm, own_nodes
 from ..report import Report
 from ..rules import circuitsem as cs
@@ -151,19 +151,66 @@ def check_reordering(idx: Index, rep: Report):
     rule = "K8.spin-ordering"
     # (1) operator re-indexing: remapped[i] = i//2 (+ ceil(n/2) for odd i)
     f = idx.function(f"{MT}::make_up_then_down")
-    t = full(f.node)
-    ok = "remapped = np.linspace(0, n_spinorbitals - 1, n_spinorbitals, dtype=int) // 2" in t and "remapped[1::2] += int(np.ceil(n_spinorbitals / 2.0))" in t and \
-        "new_term = tuple([(int(remapped[ti[0]]), ti[1]) for ti in term])" in t
-    rep.decide(ok, rule, f, f.node, text="operator: spin-orbital i -> i//2 (+ n/2 when i is odd)", what="alpha orbitals keep their spatial order in the first half, beta in the second",
-               reason="re-indexing formula changed")
-    ok = any(isinstance(n, ast.If) and norm(n.test) == "n_spinorbitals % 2 != 0" and isinstance(n.body[0], ast.Raise) for n in own_nodes(f.node))
-    rep.decide(ok, rule, f, f.node, text="odd number of spin-orbitals refused", what="the re-ordering is defined for an even number of spin-orbitals", reason="guard missing")
-    # (2) vector re-ordering: concat(v[::2], v[1::2])
+    from ..rules.circuitsem import make_folder
+    from ..rules.guards import decide_refusals
+    from .C14 import _QOp
+
+    def hook(val, cls):
+        return isinstance(val, _QOp) if "FermionOperator" in str(cls) else None
+    for n in (2, 4, 6):
+        op = _QOp()
+        want = {}
+        new_index = {i: i // 2 + (n // 2 if i % 2 else 0) for i in range(n)}
+        for i in range(n):
+            for j in range(n):
+                c = sp.Symbol(f"c_{i}_{j}")
+                op.terms[((i, 1), (j, 0))] = c
+                want[((new_index[i], 1), (new_index[j], 0))] = c
+        op.terms[((n - 1, 1), (0, 1), (n - 1, 0), (0, 0))] = sp.Symbol("d")
+        want[((new_index[n - 1], 1), (0, 1), (new_index[n - 1], 0), (0, 0))] = sp.Symbol("d")
+        fo = make_folder(idx, MT, ctors={"FermionOperator": lambda args, kwargs: _QOp(*args, **kwargs)}, isinstance_hook=hook)
+        try:
+            got = fo.run_function(f.node, {"fermion_operator": op, "n_spinorbitals": n})
+        except (Undecidable, Raised) as e:
+            raise AnalysisError(f"make_up_then_down not foldable for {n} spin-orbitals: {e}")
+        gt = got.terms if isinstance(got, _QOp) else None
+        rep.decide(gt == want, rule, f, f.node, text=f"operator on {n} spin-orbitals: index i -> i//2 (+ n/2 when i is odd), ladder types and coefficients kept",
+                   what="alpha orbitals keep their spatial order in the first half, beta in the second; nothing else about a term changes",
+                   reason=f"folded result differs: e.g. {sorted(set((gt or {}).items()) ^ set(want.items()), key=repr)[:2]}")
+    small = _QOp(((0, 1), (1, 0)), sp.Symbol("c"))
+    cases = [("3 spin-orbitals (odd)", {"fermion_operator": small, "n_spinorbitals": 3}, True), ("operator reaching beyond the register", {"fermion_operator": _QOp(((5, 1), (0, 0)), 1), "n_spinorbitals": 4}, True),
+             ("4 spin-orbitals", {"fermion_operator": small, "n_spinorbitals": 4}, False)]
+    decide_refusals(idx, rep, rule, f, cases, what="an odd register size, or an operator that does not fit the register, is refused", may_skip=("isinstance",))
+    # (2) vector re-ordering: even positions then odd positions, applied exactly once whatever the mapping
     g = idx.function(f"{SV}::get_mapped_vector")
-    conc = [n for n in own_nodes(g.node) if isinstance(n, ast.Assign) and norm(n.targets[0]) == "vector" and "np.concatenate" in norm(n.value)]
-    ok = bool(conc) and all(norm(c.value) == "np.concatenate((vector[::2], vector[1::2]))" for c in conc)
-    rep.decide(ok, rule, g, conc[0] if conc else g.node, text="vector: even positions then odd positions", what="occupations of alpha spin-orbitals first, then beta: position i goes to i//2 (+ n/2 when odd)",
-               reason=f"vector re-ordering {[norm(c.value) for c in conc]}")
+    vec = [sp.Symbol(f"v{i}") for i in range(6)]
+    wantv = vec[::2] + vec[1::2]
+    for mp in ("JW", "jw"):
+        for utd in (True, False):
+            fo = make_folder(idx, SV)
+            try:
+                got = fo.run_function(g.node, {"vector": list(vec), "mapping": mp, "up_then_down": utd})
+            except (Undecidable, Raised) as e:
+                raise AnalysisError(f"get_mapped_vector not foldable: {e}")
+            rep.decide(list(got) == (wantv if utd else vec), rule, g, g.node, text=f"vector, mapping {mp}, up_then_down={utd}",
+                       what="occupations of alpha spin-orbitals first, then beta: position i goes to i//2 (+ n/2 when odd); untouched otherwise",
+                       reason=f"folds to {got}")
+    # for the other encodings the vector reaching the transform is the re-ordered one exactly when asked (always for scBK)
+    seen = {}
+    for mp, fname in (("BK", "do_bk_transform"), ("SCBK", "do_scbk_transform"), ("JKMN", "do_jkmn_transform")):
+        for utd in (True, False):
+            fo = make_folder(idx, SV)
+            fo.env[fname] = FuncVal(ast.parse("def _probe(vector, *a):\n    return ('probe', list(vector))").body[0])
+            fo.env["warnings"] = Opaque("warnings")
+            try:
+                got = fo.run_function(g.node, {"vector": list(vec), "mapping": mp, "up_then_down": utd})
+            except (Undecidable, Raised) as e:
+                raise AnalysisError(f"get_mapped_vector not foldable for {mp}: {e}")
+            expect = wantv if (utd or mp == "SCBK") else vec
+            ok = isinstance(got, tuple) and got[0] == "probe" and got[1] == expect
+            rep.decide(ok, rule, g, g.node, text=f"vector handed to {fname}, up_then_down={utd}",
+                       what="the transform receives the re-ordered vector exactly when re-ordering is requested (the symmetry-conserving encoding always re-orders), once",
+                       reason=f"{fname} receives {got[1] if isinstance(got, tuple) else got}")
     # (3) spin-orbital index selection, folded
     h = idx.function(f"{GUCC}::get_spin_ordered")
     for utd, want in ((True, ((1, 2), (4, 5))), (False, ((2, 4), (3, 5)))):
